@@ -127,8 +127,8 @@ def parseCase (parts : List String) : Option Case := do
          nTids := ty.length, nInst := inst.length, strict := fun t => flag t 4, second := second }
 
 def observeRun (c : Case) (marked0 : List Iid) : String × RS :=
-  let rs := run c.cfg c.p c.store (c.nInst + 1) c.sched
-  let ts0 := plan c.cfg c.p c.store (c.nInst + 1)
+  let rs := run c.cfg c.p c.store (c.nTids + c.nInst + 1) c.sched
+  let ts0 := plan c.cfg c.p c.store (c.nTids + c.nInst + 1)
   let tids := List.range c.nTids
   let planS := s!"P pending={showList ts0.pending} deps={";".intercalate (tids.map (fun t => showList (sortNat (ts0.ddeps t))))} inst={";".intercalate (tids.map (fun t => showList (ts0.instances t)))}"
   let evs := rs.trace.filterMap showEv
